@@ -172,19 +172,10 @@ def rule_flag(facts, rep):
     order = ["Auto", "AlwaysAnsi", "Always", "Never"]
     f = facts.body("colorchoice", "colorchoice::AtomicChoice::from_choice")
     rep.fn(f["path"])
-    ft = ac.variant_table(ac.single_expr(f["hir"]), "colorchoice::ColorChoice", hir.lit_val)
     t = facts.body("colorchoice", "colorchoice::AtomicChoice::to_choice")
     rep.fn(t["path"])
-    tt = {}
-    dflt = None
-    for a in ac.single_expr(t["hir"])["arms"]:
-        ints = hir.pat_ints(a["pat"])
-        v = hir.simp(a["body"])
-        if ints is None:
-            dflt = hir.is_def(v, "Option::None")
-        else:
-            for i in ints:
-                tt[i] = hir.last_seg(hir.def_path(v["args"][0])) if v.get("ctor", "").endswith("Option::Some") else None
+    ft, tt = ac.choice_codec(facts)
+    dflt = all(tt.get(i) is None for i in range(16) if i not in ft.values())
     rep.check(sorted(ft) == sorted(order) and len(set(ft.values())) == 4, "flag", f["path"], "injective-on-4-values", f"{ft}", loc(f))
     rep.check(all(tt.get(ft[k]) == k for k in order if k in ft) and dflt, "flag", t["path"], "to_choice∘from_choice=Some", f"{tt}", loc(t))
     g = facts.body("colorchoice", "colorchoice::ColorChoice::global")
